@@ -140,5 +140,11 @@ silent("ref-get-reorder", ["C02","C16","C05","C09"],
 silent("ref-split-len-first", ["C10","C05"],
        E("src/lib.rs", "        match self.matches.next() {\n            None => {\n                let len = self.target.len();\n                if self.next_start > len {", "        let len = self.target.len();\n        match self.matches.next() {\n            None => {\n                if self.next_start > len {"))
 silent("ref-doc-comments", ALLP, E("src/vm.rs", "// push a backtrack branch", "// push a backtrack branch (records pc, ix and the size of the current delta)"), E("src/lib.rs", "/// A compiled regular expression.", "/// A compiled regular expression.\n///\n/// Cheap to clone."))
+rx("ref-rename-compile-locals", ["C01","C03","C07","C13","C15","C02"], ("src/compile.rs", r"\bsplit_pc\b", "fork_at", 3), ("src/compile.rs", r"\bjump_over_false_pc\b", "skip_else", 2), ("src/compile.rs", r"\bnext_pc\b", "after", 6))
+rx("ref-rename-analyze-locals", ["C01","C02","C03","C07","C13","C15","C16"], ("src/analyze.rs", r"\bchild_info\b", "ci", 20))
+rx("ref-rename-parse-group-locals", ["C16","C19","C06","C15"], ("src/parse.rs", r"\bla\b", "look", 3))
+rx("ref-rename-expand-locals", ["C12"], ("src/expand.rs", r"\btail\b", "rest", 5), ("src/expand.rs", r"\bon_group_num\b", "check_num", 3))
+rx("ref-rename-state-locals", ["C20","C02","C05","C07"], ("src/vm.rs", r"\boldsave_ix\b", "keep", 5), ("src/vm.rs", r"\boldsave_start\b", "first", 3), ("src/vm.rs", r"\boldsave_end\b", "last", 4))
+rx("ref-rename-cond-locals", ["C15","C19"], ("src/parse.rs", r"\bif_true\b", "yes", 3), ("src/parse.rs", r"\bif_false\b", "no", 3), ("src/parse.rs", r"\binner_condition\b", "cond_expr", 2))
 json.dump({"variants": V}, open(os.path.join(os.path.dirname(os.path.abspath(__file__)), "variants.json"), "w"), indent=1)
 print(len(V), "variants;", sum(1 for v in V if "must_fire" in v), "must fire,", sum(1 for v in V if "must_stay_silent" in v), "must stay silent")
